@@ -10,6 +10,12 @@ pub fn vx_abort() -> !
     ensures false
 { panic!() }
 
+// in `noabort` functions (C14) reaching an abort construct is a proof obligation
+#[verifier::external_body]
+pub fn vx_unreachable() -> !
+    requires false
+{ panic!() }
+
 // opaque message text (R2)
 #[verifier::external_body]
 pub struct VxMsg { _p: u8 }
@@ -43,4 +49,22 @@ pub mod vx_axioms {
 }
 broadcast use vx_axioms::axiom_u8_array32_eq;
 
+} // verus!
+verus! {
+// Vec::drain(..) consumed by a for loop, and its reversal (R18): the drained elements in order / in reverse
+#[verifier::external_body]
+pub fn vx_drain<T>(v: &mut Vec<T>) -> (r: Vec<T>)
+    ensures r@ == old(v)@, final(v)@.len() == 0
+{ v.drain(..).collect() }
+#[verifier::external_body]
+pub fn vx_drain_rev<T>(v: &mut Vec<T>) -> (r: Vec<T>)
+    ensures r@ == old(v)@.reverse(), final(v)@.len() == 0
+{ v.drain(..).rev().collect() }
+} // verus!
+verus! {
+// `opt.as_ref() == Some(r)` on Option<&T> (manual anchor in monitor on_*_block_end): structural comparison
+#[verifier::external_body]
+pub fn vx_opt_ref_eq<T: PartialEq>(o: &Option<T>, r: &T) -> (b: bool)
+    ensures b == (*o == Some(*r))
+{ o.as_ref() == Some(r) }
 } // verus!
